@@ -749,6 +749,153 @@ theorem sampleS_on_leg (P : List (Fix α)) (legs : List α) (hlen : legs.length 
     rw [getD0_eq _ _ (by omega)] at hlo hhi
     exact (firstGE_unique (cum legs) (cumFrom_pairwise 0 legs hlegs) s k hk1 (by omega) hlo hhi).symm
 
+/-! ### degenerate requests -/
+
+/-- instants that are all outside `(tini, tfin]` are skipped without reading the track: nothing comes out, whatever
+the track, whatever `running_id` -/
+theorem temporalLoop_outside (P : List (Fix α)) (T : List α) (tini tfin : α) (ref : List α) (rid : Nat)
+    (h : ∀ t ∈ ref, t ≤ tini ∨ tfin < t) : temporalLoop P T tini tfin ref rid = .ok [] := by
+  induction ref with
+  | nil => simp [temporalLoop]
+  | cons t rest ih =>
+    have ih' := ih (fun t' ht' => h t' (List.mem_cons_of_mem _ ht'))
+    unfold temporalLoop
+    by_cases h1 : t ≤ tini
+    · rw [if_pos h1]; exact ih'
+    · rw [if_neg h1]
+      rcases h t List.mem_cons_self with h2 | h2
+      · exact absurd h2 h1
+      · rw [if_pos h2]; exact ih'
+
+theorem resampleTemporal_outside (trunc : α → Int) (P : List (Fix α)) (hn : 0 < P.length) (ref : List α)
+    (h : ∀ t ∈ ref, t ≤ (P[0]).t ∨ (P[P.length - 1]).t < t) :
+    resampleTemporal trunc P (.instants ref) = .ok [] := by
+  unfold resampleTemporal
+  simp only [head?_times P hn, getLast?_times P hn, prepareTimes]
+  exact temporalLoop_outside P _ _ _ ref 0 h
+
+/-- a reference track is read through its stamps only -/
+theorem resampleTemporal_track (trunc : α → Int) (P Q : List (Fix α)) :
+    resampleTemporal trunc P (.track Q) = resampleTemporal trunc P (.instants (Q.map (·.t))) := by
+  unfold resampleTemporal
+  cases (P.map (·.t)).head? <;> cases (P.map (·.t)).getLast? <;> simp [prepareTimes]
+
+theorem resampleTemporal_other (trunc : α → Int) (P : List (Fix α)) :
+    resampleTemporal trunc P .other = resampleTemporal trunc P (.instants []) := by
+  unfold resampleTemporal
+  cases (P.map (·.t)).head? <;> cases (P.map (·.t)).getLast? <;> simp [prepareTimes]
+
+/-! ### the request list of `synchronize` -/
+
+theorem mem_insertAsc (v x : α) (l : List α) : x ∈ insertAsc v l ↔ x = v ∨ x ∈ l := by
+  induction l with
+  | nil => simp [insertAsc]
+  | cons w ws ih =>
+    simp only [insertAsc]
+    split
+    · simp
+    · simp only [List.mem_cons, ih]; tauto
+
+theorem mem_sortAsc (x : α) (l : List α) : x ∈ sortAsc l ↔ x ∈ l := by
+  induction l with
+  | nil => simp [sortAsc]
+  | cons w ws ih =>
+    have : sortAsc (w :: ws) = insertAsc w (sortAsc ws) := rfl
+    rw [this, mem_insertAsc, ih]; simp
+
+theorem insertAsc_sorted (v : α) (l : List α) (h : l.Pairwise (· ≤ ·)) : (insertAsc v l).Pairwise (· ≤ ·) := by
+  induction l with
+  | nil => simp [insertAsc]
+  | cons w ws ih =>
+    rw [List.pairwise_cons] at h
+    simp only [insertAsc]
+    split
+    · rename_i hv
+      refine List.pairwise_cons.mpr ⟨fun y hy => ?_, List.pairwise_cons.mpr h⟩
+      rcases List.mem_cons.mp hy with rfl | hy
+      · exact le_of_lt hv
+      · exact le_trans (le_of_lt hv) (h.1 y hy)
+    · rename_i hv
+      refine List.pairwise_cons.mpr ⟨fun y hy => ?_, ih h.2⟩
+      rcases (mem_insertAsc v y ws).mp hy with rfl | hy
+      · exact le_of_not_gt hv
+      · exact h.1 y hy
+
+theorem sortAsc_sorted (l : List α) : (sortAsc l).Pairwise (· ≤ ·) := by
+  induction l with
+  | nil => simp [sortAsc]
+  | cons w ws ih => exact insertAsc_sorted w _ ih
+
+theorem dedupFrom_sublist (p : α) (l : List α) : (dedupFrom p l).Sublist l := by
+  induction l generalizing p with
+  | nil => simp [dedupFrom]
+  | cons w ws ih =>
+    simp only [dedupFrom]
+    split
+    · exact (ih w).cons_cons w
+    · exact (ih w).cons w
+
+theorem mem_dedupFrom (p x : α) (l : List α) (h : x ∈ l) : x = p ∨ x ∈ dedupFrom p l := by
+  induction l generalizing p with
+  | nil => simp at h
+  | cons w ws ih =>
+    have hw : w = p ∨ w ∈ dedupFrom p (w :: ws) := by
+      simp only [dedupFrom]
+      by_cases hc : w < p ∨ p < w
+      · right; rw [if_pos hc]; exact List.mem_cons_self
+      · left
+        have hc' := not_or.mp hc
+        exact le_antisymm (le_of_not_gt hc'.2) (le_of_not_gt hc'.1)
+    rcases List.mem_cons.mp h with rfl | hx
+    · exact hw
+    · rcases ih w hx with rfl | hx'
+      · exact hw
+      · right
+        simp only [dedupFrom]
+        split
+        · exact List.mem_cons_of_mem _ hx'
+        · exact hx'
+
+theorem syncDedup_sublist (l : List α) : (syncDedup l).Sublist l := by
+  match l with
+  | [] => simp [syncDedup]
+  | [a] => simp [syncDedup]
+  | a :: b :: rest => exact ((dedupFrom_sublist b rest).cons_cons b).cons_cons a
+
+theorem mem_syncDedup (x : α) (l : List α) : x ∈ syncDedup l ↔ x ∈ l := by
+  refine ⟨fun h => (syncDedup_sublist l).subset h, fun h => ?_⟩
+  match l, h with
+  | [a], h => simpa [syncDedup] using h
+  | a :: b :: rest, h =>
+    simp only [syncDedup, List.mem_cons] at h ⊢
+    rcases h with h | h | h
+    · exact Or.inl h
+    · exact Or.inr (Or.inl h)
+    · rcases mem_dedupFrom b x rest h with h' | h'
+      · exact Or.inr (Or.inl h')
+      · exact Or.inr (Or.inr h')
+
+theorem syncRequest_sorted (T1 T2 : List α) (tini tfin : α) : (syncRequest T1 T2 tini tfin).Pairwise (· ≤ ·) :=
+  ((sortAsc_sorted (T1 ++ T2)).sublist List.filter_sublist).sublist (syncDedup_sublist _)
+
+theorem mem_syncRequest (T1 T2 : List α) (tini tfin x : α) :
+    x ∈ syncRequest T1 T2 tini tfin ↔ (x ∈ T1 ∨ x ∈ T2) ∧ tini < x ∧ x < tfin := by
+  unfold syncRequest
+  rw [mem_syncDedup, List.mem_filter, mem_sortAsc, List.mem_append]
+  simp
+
+theorem pmax_eq (a b : α) : pmax a b = max a b := by
+  unfold pmax
+  split
+  · rename_i h; exact (max_eq_right (le_of_lt h)).symm
+  · rename_i h; exact (max_eq_left (le_of_not_gt h)).symm
+
+theorem pmin_eq (a b : α) : pmin a b = min a b := by
+  unfold pmin
+  split
+  · rename_i h; exact (min_eq_right (le_of_lt h)).symm
+  · rename_i h; exact (min_eq_left (le_of_not_gt h)).symm
+
 end Field
 
 end TV.Resample
